@@ -329,4 +329,104 @@ def finalDisk5 (lab : NALabel) (c : Cfg) (na : Nat) : Option Disk5 → List Cras
 
 def specDisk5 (c : Cfg) (na : Nat) : Disk5 := { base := specDisk c, na := specRows na c.steps }
 
+/-! ## Parts 1 + 2 together: the nonadiabatic stream with values
+
+The nonadiabatic record of step 0 is read off the initial state by
+`NonadiabaticDynamicsBase.initialize`; the record of step `s+1` is appended INSIDE
+`_do_integrator_step`, before the step is complete, so it is a (deterministic) function `mid` of
+the state the engine had after step `s`. -/
+
+structure NAObs (σ Rec : Type) where
+  /-- row of step 0 (`active_states`, amplitudes, initial `nac_dot`), from the initial state -/
+  init : σ → Rec
+  /-- row of step `s+1` as a function of the complete state after step `s`: the observation made
+      in the middle of `_do_integrator_step`, after `_after_electronic_update` -/
+  mid : σ → Rec
+
+/-- the nonadiabatic record the UNINTERRUPTED dynamics produces for label `s` -/
+def naAt (D : Dyn σ κ Rec) (O : NAObs σ Rec) (σ0 : σ) : Nat → Rec
+  | 0 => O.init σ0
+  | s + 1 => O.mid (traj D σ0 s)
+
+structure VProc5 (σ κ Rec : Type) where
+  base : VProc σ κ Rec
+  na : VSW Rec
+  naFlushed : VRows Rec
+
+structure VDisk5 (κ Rec : Type) where
+  base : VDisk κ Rec
+  na : VRows Rec
+deriving DecidableEq
+
+def vstartFresh5 (D : Dyn σ κ Rec) (O : NAObs σ Rec) (c : Cfg) (na : Nat) (σ0 : σ) : VProc5 σ κ Rec :=
+  { base := vstartFresh D c σ0, na := vopenFresh na c.steps (O.init σ0)
+    naFlushed := List.replicate (cap na c.steps) none }
+
+def vstartResume5 (D : Dyn σ κ Rec) (c : Cfg) (na : Nat) (d : VDisk5 κ Rec) (o : Nat) (k : κ)
+    (nx : Nat) : VProc5 σ κ Rec :=
+  { base := vstartResume D c d.base o k nx, na := vopenResume na o d.na, naFlushed := d.na }
+
+/-- as `stepActs5` (with the label of the code); the nonadiabatic record is computed from the
+    state BEFORE the step (`p.base.st`), `vstepActs` then advances it -/
+def vstepActs5 (D : Dyn σ κ Rec) (O : NAObs σ Rec) (c : Cfg) (na : Nat) (s upto : Nat) (naDone : Bool)
+    (p : VProc5 σ κ Rec) : VProc5 σ κ Rec :=
+  let w := if naDone || decide (0 < upto) then VSW.step na p.na s (O.mid p.base.st) else p.na
+  { base := vstepActs D c s upto p.base, na := w
+    naFlushed := if 4 < upto && isDue c.ckpt s then w.rows else p.naFlushed }
+
+def vrunTo5 (D : Dyn σ κ Rec) (O : NAObs σ Rec) (c : Cfg) (na : Nat) (o : Nat) :
+    Nat → VProc5 σ κ Rec → VProc5 σ κ Rec
+  | 0, p => p
+  | k+1, p => vstepActs5 D O c na (o + k + 1) 7 true (vrunTo5 D O c na o k p)
+
+def VProc5.closeSoft (p : VProc5 σ κ Rec) : VDisk5 κ Rec :=
+  { base := p.base.closeSoft, na := p.na.rows }
+
+def VProc5.closeHard (p : VProc5 σ κ Rec) (mask naMask : Nat) : VDisk5 κ Rec :=
+  { base := p.base.closeHard mask, na := vmergeRows naMask p.naFlushed p.na.rows }
+
+def vstart5 (D : Dyn σ κ Rec) (O : NAObs σ Rec) (c : Cfg) (na : Nat) (σ0 : σ)
+    (d : Option (VDisk5 κ Rec)) : VProc5 σ κ Rec × Nat :=
+  match d with
+  | some dk => match dk.base.ckpt with
+    | some (o, k, nx) => (vstartResume5 D c na dk o k nx, o)
+    | none => (vstartFresh5 D O c na σ0, 0)
+  | none => (vstartFresh5 D O c na σ0, 0)
+
+def vsegBody5 (D : Dyn σ κ Rec) (O : NAObs σ Rec) (c : Cfg) (na : Nat) (p : VProc5 σ κ Rec) (o : Nat)
+    (cr : Option Crash5) : VDisk5 κ Rec :=
+  match cr with
+  | some k =>
+    if o < k.base.step ∧ k.base.step ≤ c.steps then
+      let p := vrunTo5 D O c na o (k.base.step - 1 - o) p
+      let p := vstepActs5 D O c na k.base.step k.base.upto k.naDone p
+      if k.base.hard then p.closeHard k.base.mask k.naMask else p.closeSoft
+    else
+      (vrunTo5 D O c na o (c.steps - o) p).closeSoft
+  | none => (vrunTo5 D O c na o (c.steps - o) p).closeSoft
+
+def vsegment5 (D : Dyn σ κ Rec) (O : NAObs σ Rec) (c : Cfg) (na : Nat) (σ0 : σ)
+    (d : Option (VDisk5 κ Rec)) (cr : Option Crash5) : VDisk5 κ Rec :=
+  vsegBody5 D O c na (vstart5 D O c na σ0 d).1 (vstart5 D O c na σ0 d).2 cr
+
+def vhistory5 (D : Dyn σ κ Rec) (O : NAObs σ Rec) (c : Cfg) (na : Nat) (σ0 : σ) :
+    Option (VDisk5 κ Rec) → List Crash5 → List (VDisk5 κ Rec)
+  | d, [] => [vsegment5 D O c na σ0 d none]
+  | d, k :: ks =>
+    let r := vsegment5 D O c na σ0 d (some k)
+    r :: vhistory5 D O c na σ0 (some r) ks
+
+def vfinalDisk5 (D : Dyn σ κ Rec) (O : NAObs σ Rec) (c : Cfg) (na : Nat) (σ0 : σ) :
+    Option (VDisk5 κ Rec) → List Crash5 → VDisk5 κ Rec
+  | d, [] => vsegment5 D O c na σ0 d none
+  | d, k :: ks => vfinalDisk5 D O c na σ0 (some (vsegment5 D O c na σ0 d (some k))) ks
+
+def vspecDisk5 (D : Dyn σ κ Rec) (O : NAObs σ Rec) (c : Cfg) (na : Nat) (σ0 : σ) : VDisk5 κ Rec :=
+  { base := vspecDisk D c σ0, na := vspecRows (naAt D O σ0) na c.steps }
+
+def VProc5.erase (p : VProc5 σ κ Rec) : Proc5 :=
+  { base := p.base.erase, na := p.na.erase, naFlushed := eraseRows p.naFlushed }
+
+def VDisk5.erase (d : VDisk5 κ Rec) : Disk5 := { base := d.base.erase, na := eraseRows d.na }
+
 end MDState
